@@ -150,3 +150,6 @@ pub fn e3<T: Send + Sync, R: Send>(tasks: Vec<T>, deadline: Instant, f: impl Fn(
 pub fn deadline(secs: u64) -> Instant {
     Instant::now() + Duration::from_secs(secs)
 }
+
+/// Reduced fate alphabet for quick tiers
+pub const FATE_ALTS3: [Fate; 3] = [Fate::Drop, Fate::Dup(Duration::from_millis(15)), Fate::Delay(Duration::from_millis(40))];
